@@ -548,30 +548,34 @@ fn capture_case(sink: &mut Sink, idx: u64, kind: &str, prog: &Prog, filter: &Fil
     let fexpr = filter.fexpr();
     let key = format!("{} {}", cprog(prog), fexpr.coq());
     intern_begin();
-    let (mut dump, mut raws, mut ns, mut ne) = run_capture(prog, filter);
+    let (dump, raws, ns, ne) = run_capture(prog, filter);
+    let term_of = |dump: &Option<String>, raws: &[u64]| {
+        format!(
+            "judge_capture {} {} {} {}",
+            cprog(prog),
+            cids(raws),
+            fexpr.coq(),
+            match dump {
+                Some(d) => format!("(Some {d})"),
+                None => "None".into(),
+            }
+        )
+    };
+    let mut term = term_of(&dump, &raws);
     // An event whose explicit parent no longer exists has no ancestor: it must be captured exactly as
     // an explicit-root event is.  The variant execution replaces `parent: None` by the id of a span the
-    // Registry has closed; when its storage differs, that storage is the one judged.
+    // Registry has closed; when its storage differs, both storages are judged and the case gets the
+    // worse verdict (`vworst`, Base/Worst.v).
     if prog.ops.iter().any(|(_, op)| matches!(op, Op::Event(_, ParentKind::Root, _))) {
-        let (vdump, vraws, vns, vne, used) = run_capture_with(prog, filter, true);
+        let (vdump, vraws, _, _, used) = run_capture_with(prog, filter, true);
         if used > 0 {
             sink.bump_by("variant:events-with-stale-explicit-parent", used as u64);
             if vdump != dump {
                 sink.bump("variant:stale-explicit-parent-DIFFERS-from-explicit-root");
-                (dump, raws, ns, ne) = (vdump, vraws, vns, vne);
+                term = format!("vworst ({term}) ({})", term_of(&vdump, &vraws));
             }
         }
     }
-    let term = format!(
-        "judge_capture {} {} {} {}",
-        cprog(prog),
-        cids(&raws),
-        fexpr.coq(),
-        match &dump {
-            Some(d) => format!("(Some {d})"),
-            None => "None".into(),
-        }
-    );
     let judge = intern_wrap(&term);
     bump_prog(sink, prog);
     sink.bump(&format!("filter:{}", filter.kind_name()));
